@@ -75,9 +75,15 @@ def _beh_job(args):
     if env == 'script':
         rec, _ = pgen_export.grammar_record(pgen_export.grammar_text(version))
         scripts, _ = parserb.arc_cover(rec, start, two_level=True)
-    info, behs, res = parserb.behaviours(run_dir, version, env, num=num, seed=sd, errlevels=errlevels,
-                                         errbudget=len(errlevels), closeat=14 if not (exhaustive or scripts) else 0,
-                                         depth=26, workers=2, exhaustive_tokens=exhaustive, start=start, scripts=scripts)
+    try:
+        info, behs, res = parserb.behaviours(run_dir, version, env, num=num, seed=sd, errlevels=errlevels,
+                                             errbudget=len(errlevels), closeat=14 if not (exhaustive or scripts) else 0,
+                                             depth=26, workers=2, exhaustive_tokens=exhaustive, start=start,
+                                             scripts=scripts, timeout=3000 if exhaustive else 1500)
+    except tlc.TLCError as e:
+        # a generator run that does not finish (a loaded machine) costs its behaviours, not the whole check
+        return {'behs': [], 'distinct': 0, 'generated': 0, 'violated': [], 'tail': '',
+                'incomplete': '%s %s %s: %s' % (version, env, start, str(e)[:160])}
     rl = parserb.Relabel(info, version)
     lab = info['labels']
     outb = []
@@ -127,6 +133,8 @@ def generate(out, tier, prop, envs=('valid', 'broken', 'tokenv'), versions=None,
                 out.add('states', r['distinct'])
                 out.add('transitions', r['generated'])
                 behs += r['behs']
+                if r.get('incomplete'):
+                    out.assumptions.append('ParserB generator run did not finish and contributed no behaviours: ' + r['incomplete'])
                 if r['violated']:
                     out.drift.append('ParserB invariant %s violated while generating behaviours: %s' % (
                         r['violated'], r['tail'][-400:]))
